@@ -32,7 +32,9 @@ making step k raise INSTEAD of being performed:
   halt     the process stops: the failing step and EVERY later step of every thread raise,
            so nothing more reaches the storage (finally blocks run but cannot do I/O)
 
-A failing write is also run in the variant that first writes a prefix of its data.  With
+A failing write is also run in the variant that first writes a prefix of its data.  Cases
+flagged no_rename run with os.rename unavailable (it raises EXDEV, an environment condition,
+not the fault), so that FS.move on OSFS takes its copy-and-remove path under faults.  With
 workers == 0 the enumeration over k is complete for the case; with workers > 0 the fault is
 addressed by (primitive, filesystem, path, occurrence) -- independent of the schedule --
 and the enumeration is repeated under whatever schedules the OS gives.
@@ -62,6 +64,7 @@ import re
 import shutil
 import signal
 import subprocess
+import sys
 import tempfile
 import threading
 import time
@@ -1010,19 +1013,19 @@ def all_cases(tier, seed):
     return cases
 
 
-CORE_QUICK = 0
-
-
 def select_cases(tier, seed):
-    """quick: a stratified sample (every function x style x backend pair at least once);
-    thorough: everything."""
+    """The cases in the order they are explored, and the size of the generator's universe.
+
+    A stratified sample comes first (every function x style x backend pair x workers>0 x
+    rename-unavailable stratum: 3 cases, 2 when a temp directory is involved); quick stops
+    there (and leaves out the 6-file trees), thorough continues with all remaining cases in
+    random order until its time budget is used."""
     cases = all_cases(tier, seed)
-    if tier == "thorough":
-        return cases, len(cases)
-    cases = [c for c in cases if len(c["src_tree"]["files"]) < 6]
+    universe = len(cases)
     rnd = random.Random(seed + 11)
+    pool = cases if tier == "thorough" else [c for c in cases if len(c["src_tree"]["files"]) < 6]
     strata = {}
-    for c in cases:
+    for c in pool:
         k = (c["function"], c["style"], c["backends"], c["args"].get("workers", 0) > 0,
              bool(c.get("no_rename")))
         strata.setdefault(k, []).append(c)
@@ -1031,7 +1034,13 @@ def select_cases(tier, seed):
         group = strata[k]
         n = 3 if "os" not in k[2] else 2
         chosen.extend(rnd.sample(group, min(n, len(group))))
-    return chosen, len(cases)
+    rnd.shuffle(chosen)
+    if tier != "thorough":
+        return chosen, universe
+    picked = set(id(c) for c in chosen)
+    rest = [c for c in cases if id(c) not in picked]
+    rnd.shuffle(rest)
+    return chosen + rest, universe
 
 
 def fault_kinds(case):
@@ -1040,7 +1049,7 @@ def fault_kinds(case):
     return ("fserror", "oserror", "crash", "halt")
 
 
-def explore_case(case, tmpbase, repeats=1, stats=None, only_sig=None):
+def explore_case(case, tmpbase, repeats=1, stats=None):
     """Enumerate every fault of one case.  Returns (n_steps, runs, violations, baseline_ok)."""
     base = run_once(case, tmpbase)
     if base["outcome"] != "ok" or not (fully_moved(case, base) or not scope_map(case, base["before"])):
@@ -1156,17 +1165,13 @@ def payload_of(case, v):
                 args=case["args"], case=case, fault_step=v["fault_step"], fault_key=v["fault_key"],
                 fault_kind=v["fault_kind"], primitive=v["primitive"],
                 primitives=[key_str(k) for k in res["trace"]], outcome=res["outcome"], error=res["error"],
-                detail=v["detail"], signature=signature(case, v),
+                detail=v["detail"], signature=signature(case, v), fired_index=res["fired"],
                 src_after=dict((p, _enc(b)) for p, b in sorted(res["src_after"].items())),
                 dst_after=dict((p, _enc(b)) for p, b in sorted(res["dst_after"].items())),
                 theorem=THEOREM)
 
 
 # --------------------------------------------------------------------------- Coq model tie
-
-MODEL_PRIMS = {"openbin.r": "POpenSrc", "openbin.w": "POpenDst", "read": "PRead", "write": "PWrite",
-               "remove": None, "close": None}
-
 
 def _model_label(key, n):
     prim, role, _path, _occ = key
@@ -1239,8 +1244,66 @@ def model_crosscheck(tier, tmpbase):
                          % (_coq_files([(name_no, content)]),
                             _coq_files([(name_no, prior)] if prior is not None else []), name_no,
                             ";".join(l for l in labels)), "trace content=%r prior=%r" % (content, prior)))
-    os.makedirs(common.WORK, exist_ok=True)
-    vfile = os.path.join(common.WORK, "cases_C07.v")
+    n_file_rows = len(rows)
+    # ---- move_dir of a flat directory /d -> /d on another MemoryFS (workers = 0).  The
+    # implementation performs extra read-only steps the model does not have (copy_structure:
+    # getinfo / makedir of the existing destination, one more scan); they are skipped in the
+    # alignment (their faults are judged by the predicate only): model step j <-> the j-th
+    # implementation step that has a model counterpart.
+    dir_cases = [([(0, b"ab"), (1, b""), (2, b"xyz")], []),
+                 ([(0, b"ab"), (1, b""), (2, b"xyz")], [(1, b"OLD"), (9, b"keep")]),
+                 ([(0, b"q")], []), ([], [(9, b"keep")])]
+    if tier == "thorough":
+        dir_cases.append(([(0, b"abcde"), (1, b"z"), (2, b""), (3, b"12"), (4, b"345")], [(0, b"O")]))
+    for sfiles, dfiles in dir_cases:
+        case = dict(function="move_dir", style="wrap", backends="mem>mem",
+                    src_tree=T([("d/f%d" % n, _enc(b)) for n, b in sfiles], dirs=["d"]),
+                    dst_tree=T([("d/f%d" % n, _enc(b)) for n, b in dfiles]),
+                    args=dict(src_path="d", dst_path="d", workers=0, preserve_time=False), read_cap=2)
+        base = run_once(case, tmpbase)
+        labels = []
+        scans = 0
+        made = False
+        for key in base["trace"]:
+            prim, role, path, _occ = key
+            lab = None
+            if prim == "makedir" and role == "dst" and not made:
+                lab, made = "PMakedirDst", True
+            elif prim == "scandir" and role == "src":
+                scans += 1
+                lab = "PScanSrc" if scans >= 2 else None
+            elif prim == "removedir" and role == "src":
+                lab = "PRemovedirSrc"
+            elif prim in ("openbin.r", "openbin.w", "read", "write", "close", "remove"):
+                lab = _model_label(key, int(path.rsplit("/f", 1)[1]))
+            labels.append(lab)
+        m2i = [i for i, lab in enumerate(labels) if lab is not None]
+        ids = sorted(set(n for n, _ in sfiles) | set(n for n, _ in dfiles))
+        s0, d0 = _coq_files(sfiles), _coq_files(dfiles)
+        rows.append(("trace_ok (trace_move_dir 1 FSError 0 None %s %s) [%s]"
+                     % (s0, d0, ";".join(labels[i] for i in m2i)), "move_dir trace %r" % (sfiles,)))
+        for j, i in list(enumerate(m2i)) + [(len(m2i) + 3, len(base["trace"]) + 3)]:
+            for kind, ex in (("fserror", "FSError"), ("oserror", "OSError"), ("crash", "Crash")):
+                for prefix in (False, True):
+                    if prefix and (i >= len(labels) or base["trace"][i][0] != "write"):
+                        continue
+                    res = run_once(case, tmpbase, i, kind, prefix)
+                    out = "Ok" if res["outcome"] == "ok" else "Raised " + (
+                        ex if res["outcome"] == "stopped" or res["error"] in ("OperationFailed", "OSError")
+                        else "FSError")
+                    p_len = 0
+                    if prefix:
+                        key = base["trace"][i]
+                        content = dict(sfiles)[int(key[2].rsplit("/f", 1)[1])]
+                        p_len = len(content[2 * key[3]:2 * key[3] + 2]) // 2
+                    srcf = [(n, res["src_after"]["/d/f%d" % n]) for n in ids if "/d/f%d" % n in res["src_after"]]
+                    dstf = [(n, res["dst_after"]["/d/f%d" % n]) for n in ids if "/d/f%d" % n in res["dst_after"]]
+                    rows.append(("checkd [%s] (run_move_dir 1 %s %d (Some %d) %s %s) %s %s (%s)"
+                                 % (";".join(str(n) for n in ids), ex, p_len, j, s0, d0,
+                                    _coq_files(srcf), _coq_files(dstf), out),
+                                 "move_dir %r model step %d = impl step %d %s prefix=%s"
+                                 % (sfiles, j, i, kind, prefix)))
+    vfile = os.path.join(tmpbase, "cases_C07.v")
     with open(vfile, "w") as fh:
         fh.write("From Coq Require Import List Arith Bool.\nImport ListNotations.\n"
                  "From PyFS Require Import Fault.MoveFault.\n")
@@ -1257,33 +1320,40 @@ def model_crosscheck(tier, tmpbase):
                  "&& out_eqb (snd r) o.\n"
                  "Definition prim_eq_dec : forall a b : prim, {a = b} + {a <> b}.\n"
                  "Proof. decide equality; apply Nat.eq_dec. Defined.\n"
-                 "Definition trace_ok (a b : list prim) : bool := if list_eq_dec prim_eq_dec a b then true else false.\n")
+                 "Definition trace_ok (a b : list prim) : bool := if list_eq_dec prim_eq_dec a b then true else false.\n"
+                 "Definition checkd (ns : list name) (r : state * outcome) (s d : files) (o : outcome) : bool :=\n"
+                 "  forallb (fun n => oeqb (look n (src (fst r))) (look n s) && oeqb (look n (dst (fst r))) (look n d)) ns "
+                 "&& out_eqb (snd r) o.\n")
         fh.write("Definition verdicts : list bool := [\n  ")
         fh.write(";\n  ".join(t for t, _ in rows))
         fh.write("].\n")
         fh.write("Eval vm_compute in (length (filter (fun b => b) verdicts), "
                  "length (filter negb verdicts)).\n")
         fh.write("Eval vm_compute in (map negb verdicts).\n")
-    p = subprocess.run(["timeout", "600", "coqc", "-Q", common.COQ, "PyFS", vfile], cwd=common.WORK,
+    p = subprocess.run(["timeout", "600", "coqc", "-Q", common.COQ, "PyFS", vfile], cwd=tmpbase,
                        stdout=subprocess.PIPE, stderr=subprocess.STDOUT, universal_newlines=True)
-    for ext in (".vo", ".glob", ".vok", ".vos"):
-        try:
-            os.remove(vfile[:-2] + ext)
-        except OSError:
-            pass
     m = re.search(r"=\s*\((\d+)(?:%nat)?,\s*(\d+)(?:%nat)?\)", p.stdout)
     if not m:
         return dict(ran=False, reason="coqc failed: " + p.stdout[-800:])
     good, bad = int(m.group(1)), int(m.group(2))
     mism = []
     if bad:
-        flags = re.findall(r"\b(true|false)\b", p.stdout.split("list bool")[0].split("=", 2)[-1])
         flags = re.findall(r"\b(true|false)\b", p.stdout[m.end():])
         mism = [rows[i][1] for i, f in enumerate(flags[:len(rows)]) if f == "true"][:10]
-    return dict(ran=True, compared=good + bad, agree=good, disagree=bad, mismatches=mism)
+    return dict(ran=True, compared=good + bad, agree=good, disagree=bad, mismatches=mism,
+                move_file_comparisons=n_file_rows, move_dir_comparisons=len(rows) - n_file_rows,
+                what="Coq model (vm_compute of run_move_file / run_move_dir / trace_*) vs /repo over "
+                     "fault-injecting MemoryFS proxies: primitive sequence, outcome class and the "
+                     "final source/destination tables for every fault position x FSError/OSError/Crash "
+                     "x write-prefix variant")
 
 
 # --------------------------------------------------------------------------- exploration
+
+def _mktmp():
+    base = "/dev/shm" if os.path.isdir("/dev/shm") and os.access("/dev/shm", os.W_OK) else None
+    return tempfile.mkdtemp(prefix="pyfs2verif_c07_", dir=base)
+
 
 def load_local_known():
     if not os.path.exists(KNOWN_LOCAL):
@@ -1313,7 +1383,7 @@ def _merge_counts(dst, src):
 
 def explore_cases(cases, repeats, deadline):
     """Enumerate the faults of a list of cases (in this process).  Returns an aggregate."""
-    tmpbase = tempfile.mkdtemp(prefix="pyfs2verif_c07_")
+    tmpbase = _mktmp()
     agg = dict(stats=_new_stats(), findings={}, sig_counts={}, per_function={}, samples=[],
                cases=0, exhaustive_cases=0, scheduled_cases=0, invalid_cases=0, invalid_samples=[],
                skipped_for_time=0, runs=0, steps=0)
@@ -1364,13 +1434,11 @@ def explore(tier, seed, time_budget=None, procs=None, progress=False, known_sigs
     t0 = time.time()
     thorough = tier == "thorough"
     if time_budget is None:
-        time_budget = 480.0 if thorough else 30.0
+        time_budget = 480.0 if thorough else 26.0
     if procs is None:
         procs = max(1, min(12 if thorough else 4, (os.cpu_count() or 2) - 1))
     cases, universe = select_cases(tier, seed)
-    rnd = random.Random(seed + 3)
-    rnd.shuffle(cases)
-    repeats = 3 if thorough else 1
+    repeats = 3 if thorough else 2
     deadline = t0 + time_budget
     if procs > 1:
         import multiprocessing
@@ -1399,7 +1467,7 @@ def explore(tier, seed, time_budget=None, procs=None, progress=False, known_sigs
     if progress:
         print("  [%5.1fs] %d cases, %d runs, %d signatures" % (time.time() - t0, out["cases"], out["runs"],
                                                              len(out["findings"])))
-    tmpbase = tempfile.mkdtemp(prefix="pyfs2verif_c07_")
+    tmpbase = _mktmp()
     install()
     try:
         shrunk = {}
@@ -1501,13 +1569,24 @@ def run(report):
 def replay(report, path):
     with open(path) as fh:
         d = json.load(fh)
+    if d.get("kind") == "model-differs-from-implementation":
+        tmpbase = _mktmp()
+        install()
+        try:
+            tie = model_crosscheck(d.get("tier", "quick"), tmpbase)
+        finally:
+            INJ.armed = False
+            uninstall()
+            shutil.rmtree(tmpbase, ignore_errors=True)
+        print(json.dumps(tie, indent=1))
+        return 1 if (not tie.get("ran") or tie.get("disagree")) else 0
     case = d["case"]
     fkind = d["fault_kind"]
     prefix = fkind.endswith("+prefix")
     kind = fkind.split("+")[0]
     workers = case["args"].get("workers", 0)
     target = d["fault_step"] if workers == 0 else tuple(d["fault_key"])
-    tmpbase = tempfile.mkdtemp(prefix="pyfs2verif_c07_")
+    tmpbase = _mktmp()
     install()
     failed = 0
     try:
